@@ -4,7 +4,7 @@
   TV   the behaviours run on the real code (harness/replay_wallet) and TLC
        validates the recorded trace under TraceWallet.tla: Layer-P monitors decide
        the verdict, Layer-M mismatches are reported as NONCONFORMANCE only."""
-import json, os, random, time
+import json, os, random, re, time
 from common import *
 
 
@@ -108,6 +108,14 @@ def mc_and_gen(cfgs, tier, timeout):
             raise ToolError("TLC failed on " + cfg)
         b = parse_printed(r["printed"]["REPLAY"], "REPLAY")
         c = parse_printed(r["printed"]["CEX"], "CEX")
+        # the initial world of this configuration travels with its behaviours
+        m = re.search(r"(?m)^\s*NFund\s*=\s*(\d+)", open(os.path.join(SPEC, cfg)).read())
+        if m:
+            su = {"ev": "setup", "nfund": int(m.group(1))}
+            b = [[su] + x for x in b]
+            for x in c:
+                if isinstance(x.get("hist"), list):
+                    x["hist"] = [su] + x["hist"]
         stats.append({"cfg": cfg, "states": r["states"], "transitions": r["transitions"], "depth": r["depth"],
                       "completed": r["completed"], "violated": sorted(set(x.get("inv", "?") for x in c)),
                       "behaviours_emitted": r["printed_counts"]["REPLAY"], "cex": r["printed_counts"]["CEX"], "wall_s": round(r["wall_s"], 1),
@@ -146,7 +154,7 @@ def attach_replays(keys, events, setup):
         by_b.setdefault(e.get("b"), []).append(e)
     for k, info in keys.items():
         evs = by_b.get(info["behaviour"], [])
-        info["setup"] = setup
+        info["setup"] = next((e["setup"] for e in evs if e.get("ev") == "reset" and "setup" in e), setup)
         info["events"] = [{x: e[x] for x in e if x != "obs"} for e in evs]
 
 
@@ -161,10 +169,11 @@ def decorate(behs, rnd, params):
             out.append(b)
             continue
         b2 = list(b)
+        lo = 1 if b2[0].get("ev") == "setup" else 0
         kind = rnd.choice(["reopen", "reopen", "outage"])
         ws = sorted(set(e.get("w") for e in b2 if e.get("w") in ("w1", "w2"))) or ["w1"]
         if kind == "reopen":
-            pos = rnd.randrange(0, len(b2) + 1)
+            pos = rnd.randrange(lo, len(b2) + 1)
             w = rnd.choice(ws)
             ins = [{"ev": "reopen", "w": w}]
             # the active account is per process: restore it so that the rest of the behaviour means the same
@@ -176,7 +185,7 @@ def decorate(behs, rnd, params):
                 ins.append({"ev": "set_active", "w": w, "label": act})
             b2[pos:pos] = ins
         else:
-            pos = rnd.randrange(0, len(b2) + 1)
+            pos = rnd.randrange(lo, len(b2) + 1)
             w = rnd.choice(ws)
             b2[pos:pos] = [{"ev": "node_down"}, {"ev": "refresh", "w": w}, {"ev": "node_up"}]
         out.append(b2)
